@@ -1,3 +1,4 @@
+import FractopoModel.Lemmas.Pipeline
 import FractopoModel.Lemmas.Topology
 import FractopoModel.Spec.Classes
 import FractopoModel.Generated.BranchIdentity
@@ -156,5 +157,24 @@ theorem C05_generated_branch_labels (bquery : Branch P → List Nat) (edist : P 
   intro n _
   simp only [List.elem]
   cases h1 : (cls n == "X") <;> cases h2 : (cls n == "Y") <;> simp_all
+
+/-- **The node table is computed from exactly the branches that are returned.** In the regenerated orchestration of
+`branches_and_nodes` (`Pipeline.finish`, the tail of `Pipeline.generated_pipeline`): when extraction completes, the returned
+branch geometries are the noded pieces that passed the length filter, the node table (points and classes) is the one computed from THOSE
+branches, and the labels are computed from those branches and that table -- no branch that is dropped afterwards ever contributed an
+end to a node, and no returned branch is missing from the count. (`C05_handshake` etc. are about that table.) -/
+theorem C05_generated_tables_from_output_branches {G' A' U' N' : Type} (len : G' → Rat) (union_all : List G' → U') (u_is_multi u_is_line : U' → Bool) (u_parts : U' → List G')
+    (node_table : List G' → List A' → Rat → List N' × List String) (branch_labels : List G' → List N' → List String → Rat → List String)
+    (areas : List A') (t : Rat) (snapped : List G') (brs : List (G' × String)) (nds : List (N' × String))
+    (h : Pipeline.finish len union_all u_is_multi u_is_line u_parts node_table branch_labels areas t snapped = .ok (brs, nds)) :
+    let B := (u_parts (union_all (snapped.filter fun tr => decide (len tr > t * (201 / 100))))).filter fun b => decide (len b > t * (101 / 100))
+    brs = List.zip B (branch_labels B (node_table B areas t).1 (node_table B areas t).2 t) ∧
+    nds = List.zip (node_table B areas t).1 (node_table B areas t).2 := by
+  unfold Pipeline.finish at h
+  simp only at h
+  split at h
+  · simp only [Except.ok.injEq, Prod.mk.injEq] at h
+    exact ⟨h.1.symm, h.2.symm⟩
+  · cases h
 
 end C05
